@@ -214,7 +214,7 @@ def _guard_text(f: Fn, t, lbl: str) -> str:
     operands of == / != in a fixed order - so that two spellings of one condition read the same."""
     import copy
 
-    e = f.expand(t.ast, t)
+    e = f.expand(t.ast, t, state_safe=False)  # what the condition was computed from (the skeleton compares meanings, not moments)
     neg = lbl == "false"
     while isinstance(e, ast.UnaryOp) and isinstance(e.op, ast.Not):
         e, neg = e.operand, not neg
